@@ -521,6 +521,9 @@ def _load(aligned):
             return _bool_load(aligned)(ctx)
         if ctx.fn.cls_type is not None and ctx.fn.cls_type.kind == "cbatch":
             return _cplx_load(aligned)(ctx)
+        pm = [a for a in ctx.args if a.kind == "P"]
+        if len(pm) == 1 and pm[0].tid and pm[0].tid != ctx.tid and not getattr(pm[0], "complex", False) and not getattr(pm[0], "is_bool", False):
+            return _conv_load(aligned, pm[0])(ctx)
         R = ctx.ret = bind_ret(ctx, "B")
         mem, _ = _mem_arg(ctx)
         nbytes = ctx.n * ctx.w // 8
@@ -532,8 +535,53 @@ def _load(aligned):
     return build
 
 
+def _conv_load(aligned, mem):
+    """converting load (load_as): lane i = static_cast<T>(mem[i]) whenever representable; exactly size * sizeof(From) bytes are read"""
+    def build(ctx):
+        src, dst = mem.tid, ctx.tid
+        R = ctx.ret = bind_ret(ctx, "B")
+        nbytes = ctx.n * TYPES[src][2] // 8
+        ctx.mem_bytes = {mem.cname: nbytes}
+        ctx.requires.append("__CPROVER_r_ok(%s, %d)" % (mem.scalar, nbytes))
+        if aligned:
+            ctx.requires.append("((u64)%s %% %d) == 0" % (mem.scalar, ARCHS[ctx.aid][1] // 8))
+        ens = []
+        for i in range(ctx.n):
+            x = mem.elem(i)
+            pre = conv_pre(src, dst, x)
+            e = "(%s == %s)" % (R.lane(i), conv_expr(src, dst, x))
+            ens.append("(!(%s) || %s)" % (pre, e) if pre else e)
+        ctx.ensures += conj(ens, 4)
+        ctx.uses_float = True
+    return build
+
+
+def _conv_store(aligned, mem, b):
+    def build(ctx):
+        src, dst = ctx.tid, mem.tid
+        nbytes = ctx.n * TYPES[dst][2] // 8
+        ctx.mem_bytes = {mem.cname: nbytes}
+        ctx.requires.append("__CPROVER_w_ok(%s, %d)" % (mem.scalar, nbytes))
+        if aligned:
+            ctx.requires.append("((u64)%s %% %d) == 0" % (mem.scalar, ARCHS[ctx.aid][1] // 8))
+        ens = []
+        for i in range(ctx.n):
+            x = b.lane(i)
+            pre = conv_pre(src, dst, x)
+            e = "(%s == %s)" % (mem.elem(i), conv_expr(src, dst, x))
+            ens.append("(!(%s) || %s)" % (pre, e) if pre else e)
+        ctx.ensures += conj(ens, 4)
+        ctx.assigns.append("__CPROVER_object_upto(%s, %d)" % (mem.scalar, nbytes))
+        ctx.uses_float = True
+    return build
+
+
 def _store(aligned):
     def build(ctx):
+        pm = [a for a in ctx.args if a.kind == "P"]
+        pb = [a for a in ctx.args if a.kind == "B"]
+        if len(pm) == 1 and len(pb) == 1 and pm[0].tid and pm[0].tid != ctx.tid and not getattr(pm[0], "complex", False) and not getattr(pm[0], "is_bool", False):
+            return _conv_store(aligned, pm[0], pb[0])(ctx)
         mem, b = _mem_arg(ctx)
         nbytes = ctx.n * ctx.w // 8
         ctx.mem_bytes = {mem.cname: nbytes}
@@ -602,14 +650,19 @@ row("load_unaligned", "PM", "M", prop="C04")(_bool_load(False))
 for _o in ("store", "store_aligned", "store_unaligned"):
     row(_o, "MP", "V", prop="C04")(_bool_store)
 def _load_prop(fn):
-    return "C16" if (fn.cls_type is not None and fn.cls_type.kind == "cbatch") else "C04"
+    if fn.cls_type is not None and fn.cls_type.kind == "cbatch":
+        return "C16"
+    pm = [p for p in fn.ptypes if p.kind == "mem"]
+    if len(pm) == 1 and pm[0].tid and fn.tid and pm[0].tid != fn.tid and not getattr(pm[0], "is_bool", False) and not getattr(pm[0], "complex", False):
+        return "C06"        # converting forms (load_as / store_as)
+    return "C04"
 
 
 row("load_aligned", "P", "B", prop=_load_prop)(_load(True))
 row("load_unaligned", "P", "B", prop=_load_prop)(_load(False))
 for _k in ("PB", "BP"):
-    row("store_aligned", _k, "V", prop="C04")(_store(True))
-    row("store_unaligned", _k, "V", prop="C04")(_store(False))
+    row("store_aligned", _k, "V", prop=_load_prop)(_store(True))
+    row("store_unaligned", _k, "V", prop=_load_prop)(_store(False))
 
 
 # ---- C06: conversions ------------------------------------------------------------------------------------------------------------
